@@ -50,6 +50,10 @@ func (it *Iterator) M__next__() (res Object, err error) {
 	}
 	if err != nil {
 		if IsException(IndexError, err) {
+			// an exhausted iterator stays exhausted even if the
+			// sequence grows afterwards
+			it.Seq = Tuple(nil)
+			it.Pos = 0
 			return nil, StopIteration
 		}
 		return nil, err
